@@ -33,7 +33,7 @@ TECHNIQUE = "Hypothesis multigraphs vs. reference orders + validity predicates; 
 def budget(tier):
     if tier == "quick":
         return dict(shards=16, examples=1500, time_s=55)
-    return dict(shards=16, examples=80000, time_s=850)
+    return dict(shards=16, examples=40000, time_s=850)
 
 
 def strategy(tier):
